@@ -377,7 +377,12 @@ const char *resolve_module_path(const char *module_path, const char *current_fil
          * runs out of parent directories before finding the project root. */
         {
             char test_path[2048];
-            const char *parents[] = {".", "..", "../..", NULL};
+            /* as many levels as the walk-up from the file path above tries (10): with only ".", ".." and
+             * "../.." a file three or more levels below the project root resolved its imports when it was named
+             * by an absolute path but not when it was named relative to its own directory */
+            const char *parents[] = {".", "..", "../..", "../../..", "../../../..", "../../../../..",
+                                     "../../../../../..", "../../../../../../..", "../../../../../../../..",
+                                     "../../../../../../../../..", NULL};
             for (int d = 0; parents[d] != NULL; d++) {
                 char marker[2048];
                 snprintf(marker, sizeof(marker), "%s/modules", parents[d]);
